@@ -155,3 +155,4 @@ def run(ctx) -> None:
     chain(ctx)
     perftrack(ctx)
     C13.bracket(ctx)
+    shared.argname_scope(ctx, ('forml.runtime._agent', 'forml.io.asset', 'forml.flow._suite', 'forml.evaluation._stage', 'forml.provider.runner'), floor=2)
